@@ -8,6 +8,8 @@ text is a symbol no SBML document defines);
 R14.2 value: the template equals the model's rate law - the deterministic closed form, or the
 falling-factorial form for a stochastic mass-action export (sympy, with witness);
 R14.3 stoichiometry: reactant/product references get the multiplicity of each distinct species;
+R14.5 mode forwarding: generate_sbml_model hands add_reaction the export's stochastic flag and the
+reaction's own recorded fields for every reaction (shared with C12 R12.3).
 R14.4 modifiers: every species a Hill/general law mentions that is neither reactant nor product
 is declared as a modifier of the reaction.
 """
@@ -257,6 +259,21 @@ def check(ctx):
     check_templates(ctx, f)
     check_stoichiometry(ctx, f)
     check_modifiers(ctx, f)
+    # "the deterministic rate in a deterministic export and the combinatorial stochastic rate in a stochastic export": the templates
+    # above are selected by add_reaction's `stochastic` argument, which must be the export's flag for every reaction, together with
+    # the reaction's own 8 fields (C12 R12.3) - re-emitted here
+    from ..core import SubCtx
+    from . import c12
+    for m in ('types', 'types.pxd'):
+        ctx.prog.mod(m)
+    sub = SubCtx(ctx)
+    c12.check_forwarding(sub)
+    n = 0
+    for rule, key, ok, where, what, detail in sub.got:
+        if rule == 'R12.3-forwarding' and key in ('generate_sbml_model', 'write_sbml_model', 'reaction_definitions'):
+            ctx.ob('R14.5-mode-forwarding', key, ok, where, what, detail)
+            n += 1
+    ctx.floor('R14.5-mode-forwarding', 3)
     ctx.floor('R14.1-identifiers', 6)
     ctx.floor('R14.2-value', 7)
     ctx.floor('R14.4-modifiers', 5)
